@@ -1,0 +1,49 @@
+//go:build verif
+
+// Contracts for package plot, read by /verif/govc. Comment-only file.
+package plot
+
+// ---------------------------------------------------------------------------------- C17
+
+//@ func newTimeSeries
+//@   property C17
+//@   ensures [empty-series] result != nil && fresh(result) && result.attack == attack && result.label == label && result.len == 0 && result.prev == 0
+//@              && result.data != nil && fresh(result.data) && pushed(result.data) == 0
+
+// timeSeries.add: a point is pushed exactly once, or rejected (time going backwards) leaving everything unchanged.
+//@ func (*timeSeries).add
+//@   property C17
+//@   requires [non-nil] ts != nil && ts.data != nil && errMonotonicTimestamp != nil
+//@   assume   [fewer-than-2^62-points] ts.len < 4611686018427387904
+//@   modifies ts.prev, ts.len, *ts.data
+//@   ensures [rejected-leaves-series-unchanged] old(ts.prev) > t ==> result != nil && ts.prev == old(ts.prev) && ts.len == old(ts.len) && pushed(ts.data) == old(pushed(ts.data))
+//@   ensures [one-point-pushed] old(ts.prev) <= t ==> result == nil && ts.prev == t && ts.len == old(ts.len) + 1 && pushed(ts.data) == old(pushed(ts.data)) + 1
+//@              && lastT(ts.data) == t && lastV(ts.data) == v
+
+// labeledSeries.add: results may arrive in any order; they are buffered by sequence number and released
+// to their series in sequence order, each exactly once, at x = (timestamp - timestamp of seq 0) in ms.
+//@ func (*labeledSeries).add
+//@   property C17
+//@   returns (err)
+//@   requires [non-nil] ls != nil && r != nil && ls.label != nil && ls.buf != nil && ls.series != nil && errMonotonicTimestamp != nil
+//@   requires [each-sequence-number-once] r.Seq >= ls.seq && !has(ls.buf, r.Seq)
+//@   requires [buffered-points-are-pending] forall s int :: has(ls.buf, s) ==> s > ls.seq && ls.buf[s].seq == s && ls.buf[s].ts != nil && ls.buf[s].ts.data != nil
+//@   requires [series-well-formed] forall l string :: has(ls.series, l) ==> ls.series[l] != nil && ls.series[l].data != nil
+//@   requires [timestamps-follow-sequence-order] (ls.seq > 0 ==> r.Timestamp >= ls.began) && (forall s int :: has(ls.buf, s) ==> ls.buf[s].t >= (ls.seq > 0 ? ls.began : (r.Seq == 0 ? r.Timestamp : ls.buf[s].t)))
+//@   assume   [fewer-than-2^62-results] ls.seq < 4611686018427387904 && len(ls.buf) < 4611686018427387904
+//@   modifies ls.buf[*], ls.series[*], ls.seq, ls.began, any(plot.timeSeries), any(tsz.Series)
+//@   ghost released int
+//@   at call Sub: assume [attack-shorter-than-292-years] MinInt64 <= arg0 - arg1 && arg0 - arg1 <= MaxInt64
+//@   before call add: assert [released-in-sequence-order] p.seq == ls.seq && ls.seq == old(ls.seq) + released ;
+//@        assert [x-is-ms-since-first-request] arg1 == (p.t - ls.began) / 1000000 && arg2 == p.v
+//@   at call add: ghost released = released + 1
+//@   ensures [out-of-order-result-is-buffered] r.Seq != old(ls.seq) ==> err == nil && ls.seq == old(ls.seq) && released == 0 && has(ls.buf, r.Seq)
+//@              && ls.buf[r.Seq].t == r.Timestamp && ls.buf[r.Seq].seq == r.Seq
+//@   ensures [released-run-is-contiguous] err == nil ==> ls.seq == old(ls.seq) + released
+//@   ensures [nothing-lost-nothing-duplicated] err == nil ==> (forall s int :: has(ls.buf, s) == ((old(has(ls.buf, s)) || s == r.Seq) && !(old(ls.seq) <= s && s < ls.seq)))
+//@   ensures [released-as-far-as-possible] err == nil ==> !has(ls.buf, ls.seq)
+//@   ensures [time-origin-is-first-request] old(ls.seq) == 0 && r.Seq == 0 ==> ls.began == r.Timestamp
+//@   loop 1
+//@     invariant ls == old(ls) && ls.buf == old(ls.buf) && ls.buf != nil && ls.seq == old(ls.seq) + released && released >= 0 && r.Seq == old(ls.seq)
+//@     invariant forall s int :: has(ls.buf, s) == ((old(has(ls.buf, s)) || s == r.Seq) && !(old(ls.seq) <= s && s < ls.seq))
+//@     invariant forall s int :: has(ls.buf, s) ==> ls.buf[s].seq == s && ls.buf[s].ts != nil && ls.buf[s].ts.data != nil && ls.buf[s].t >= ls.began
